@@ -4,13 +4,19 @@ import Mathlib.Data.List.Dedup
 /-!
 # AverageLearner model: telling is faithful bookkeeping (C10) and the data round trip (C13)
 
-* B.1 `tell_known_noop`: `tell` on a known seed changes nothing.
+* B.1 `tell_known_noop`, `tellPending_known_noop`: `tell` / `tell_pending` on a seed that has a
+      value change nothing; `tell_tellPending_tell`: neither does a re-tell after the seed was
+      re-marked pending in between.
 * B.2 `firstTold`, `data_is_first_told`, `hasKey_iff_told`, `npoints_eq_distinct_told`.
-* B.3 `told_not_pending*` — needs the history to be *valid* (`ValidOp`): `tell_pending(n)` of the
-      code is a bare `pending_points.add(n)`, so an explicit `tell_pending` of a seed that already
-      has a value makes it pending-and-known for ever (counterexample below).  The points a
-      committing `ask` returns always satisfy the side condition (`askPoints_valid`).
-* B.4 `askCommit_marks_pending`, `pending_stays_step`, `pending_stays_run`.
+* B.3 `told_not_pending*` — for EVERY op list (invariant `PInv`: no seed is both in `data` and in
+      `pending`).  Before the repair `fix: AverageLearner.tell_pending marked an already evaluated
+      seed as pending` `tell_pending(n)` of the code was a bare `pending_points.add(n)`, an explicit
+      `tell_pending` of a seed with a value made it pending-and-known for ever, and B.3 needed the
+      proviso "valid history" (`ValidOp`/`ValidOps`, deleted now).  The former counterexample is a
+      positive example below.
+* B.4 `askCommit_marks_pending` (of the seeds without a value: `tell_pending` ignores the others),
+      `ask_marks_pending` (whatever `ask` returns: `askPoints_valid`), `pending_stays_step`,
+      `pending_stays_run`.
 * B.5 `removeUnfinished_spec` (`sqrt` arbitrary).
 * D   `getData`, `setData`, `setData_getData*`.
 -/
@@ -118,9 +124,17 @@ theorem tell_pending (s : State α) (k : Nat) (v : α) :
   unfold tell
   split <;> rfl
 
+/-- `tell_pending` of a seed that already has a value changes nothing -/
+theorem tellPending_known_noop {s : State α} {k : Nat} (h : hasKey k s.data = true) :
+    tellPending s k = s := by
+  unfold tellPending
+  rw [if_pos h]
+
 theorem tellPending_data (s : State α) (k : Nat) : (tellPending s k).data = s.data := by
   unfold tellPending
-  split <;> rfl
+  split
+  · rfl
+  · split <;> rfl
 
 theorem foldl_tellPending_data (pts : List Nat) (s : State α) :
     (pts.foldl tellPending s).data = s.data := by
@@ -128,32 +142,52 @@ theorem foldl_tellPending_data (pts : List Nat) (s : State α) :
   | nil => rfl
   | cons p ps ih => rw [List.foldl_cons, ih, tellPending_data]
 
+/-- the pending seeds after `tell_pending(k)`: `k` joins them iff it has no value -/
 theorem mem_tellPending_pending (s : State α) (k j : Nat) :
-    j ∈ (tellPending s k).pending ↔ j = k ∨ j ∈ s.pending := by
+    j ∈ (tellPending s k).pending ↔ (j = k ∧ hasKey k s.data = false) ∨ j ∈ s.pending := by
   unfold tellPending
   split
   · rename_i h
     constructor
     · exact Or.inr
-    · rintro (rfl | h')
-      · exact h
+    · rintro (⟨-, h'⟩ | h')
+      · rw [h] at h'; exact absurd h' (by decide)
       · exact h'
-  · exact List.mem_cons
+  · rename_i h
+    rw [Bool.not_eq_true] at h
+    split
+    · rename_i hk
+      constructor
+      · exact Or.inr
+      · rintro (⟨rfl, -⟩ | h')
+        · exact hk
+        · exact h'
+    · show j ∈ k :: s.pending ↔ _
+      rw [List.mem_cons]
+      constructor
+      · rintro (h' | h')
+        · exact Or.inl ⟨h', h⟩
+        · exact Or.inr h'
+      · rintro (⟨h', -⟩ | h')
+        · exact Or.inl h'
+        · exact Or.inr h'
 
+/-- the pending seeds after a committing `ask` that returned `pts` (`tell_pending` never changes
+`data`, so the test "has no value" refers to the state before) -/
 theorem mem_foldl_tellPending_pending (pts : List Nat) (s : State α) (j : Nat) :
-    j ∈ (pts.foldl tellPending s).pending ↔ j ∈ pts ∨ j ∈ s.pending := by
+    j ∈ (pts.foldl tellPending s).pending ↔ (j ∈ pts ∧ hasKey j s.data = false) ∨ j ∈ s.pending := by
   induction pts generalizing s with
   | nil => simp
   | cons p ps ih =>
-    rw [List.foldl_cons, ih, mem_tellPending_pending, List.mem_cons]
+    rw [List.foldl_cons, ih, mem_tellPending_pending, tellPending_data, List.mem_cons]
     constructor
-    · rintro (h | h | h)
-      · exact Or.inl (Or.inr h)
-      · exact Or.inl (Or.inl h)
+    · rintro (⟨h, hd⟩ | ⟨rfl, hd⟩ | h)
+      · exact Or.inl ⟨Or.inr h, hd⟩
+      · exact Or.inl ⟨Or.inl rfl, hd⟩
       · exact Or.inr h
-    · rintro ((h | h) | h)
-      · exact Or.inr (Or.inl h)
-      · exact Or.inl h
+    · rintro (⟨rfl | h, hd⟩ | h)
+      · exact Or.inr (Or.inl ⟨rfl, hd⟩)
+      · exact Or.inl ⟨h, hd⟩
       · exact Or.inr (Or.inr h)
 
 theorem tellPending_nodup {s : State α} (h : s.pending.Nodup) (k : Nat) :
@@ -161,13 +195,34 @@ theorem tellPending_nodup {s : State α} (h : s.pending.Nodup) (k : Nat) :
   unfold tellPending
   split
   · exact h
-  · rename_i hk; exact List.nodup_cons.2 ⟨hk, h⟩
+  · split
+    · exact h
+    · rename_i hk; exact List.nodup_cons.2 ⟨hk, h⟩
 
 theorem foldl_tellPending_nodup (pts : List Nat) {s : State α} (h : s.pending.Nodup) :
     (pts.foldl tellPending s).pending.Nodup := by
   induction pts generalizing s with
   | nil => exact h
   | cons p ps ih => exact ih (tellPending_nodup h p)
+
+theorem hasKey_append_singleton (d : List (Nat × α)) (k j : Nat) (v : α) :
+    hasKey j (d ++ [(k, v)]) = (hasKey j d || k == j) := by
+  unfold hasKey
+  rw [List.any_append]
+  simp
+
+theorem hasKey_tell_self (s : State α) (k : Nat) (v : α) : hasKey k (tell s k v).data = true := by
+  rw [tell_data]
+  split
+  · assumption
+  · rw [hasKey_append_singleton]; simp
+
+/-- a re-tell after the seed was re-marked pending in between changes nothing either: for EVERY
+state `s` (reachable or not), `tell_pending(k)` after `tell(k, v)` is ignored, and so is the second
+`tell` -/
+theorem tell_tellPending_tell (s : State α) (k : Nat) (v w : α) :
+    tell (tellPending (tell s k v) k) k w = tell s k v := by
+  rw [tellPending_known_noop (hasKey_tell_self s k v), tell_known_noop w (hasKey_tell_self s k v)]
 
 /-! ## B.2 `data` holds the first value told for every seed -/
 
@@ -233,29 +288,21 @@ theorem npoints_eq_distinct_told (atol rtol : Option α) (m : Nat) (ops : List (
     rw [List.mem_dedup, ← hasKey_iff, hasKey_iff_told, mem_toldSeeds]
   rw [← hperm.length_eq, List.length_map]
 
-/-! ## B.3 a told seed is not pending — along valid histories -/
+/-! ## B.3 a told seed is not pending — for every op list -/
 
-/-- The statement is FALSE for arbitrary op lists: `tell_pending(n)` of the code is a bare
-`pending_points.add(n)`, and `tell` returns early on a known seed, so a seed that is marked pending
-after it was told stays pending and known. -/
+/-- Before the repair `fix: AverageLearner.tell_pending marked an already evaluated seed as pending`
+this history was the counterexample to B.3 (seed 0 ended up pending AND known, for ever): `tell`
+returns early on a known seed, and `tell_pending(n)` was a bare `pending_points.add(n)`.  Now
+`tell_pending` ignores a seed that has a value, and seed 0 is not pending at the end. -/
 example :
     let s := run (init (none : Option Rat) none 2) [.tell 0 1, .tellPending 0, .tell 0 2]
-    (0 ∈ s.pending ∧ hasKey 0 s.data = true) := by decide
+    (0 ∉ s.pending ∧ hasKey 0 s.data = true ∧ s.pending = [] ∧ s.data = [(0, 1)]) := by decide
 
-/-- the quantifier of B.3: an explicit `tell_pending`, and the points a committing `ask` returned,
-are seeds without a value (`askPoints_valid`: `ask` only returns such points) -/
-def ValidOp (s : State α) : Op α → Prop
-  | .tellPending k => hasKey k s.data = false
-  | .askCommit pts => ∀ p ∈ pts, hasKey p s.data = false
-  | _ => True
-
-def ValidOps (s : State α) : List (Op α) → Prop
-  | [] => True
-  | op :: ops => ValidOp s op ∧ ValidOps (step s op) ops
-
-/-- whatever `ask(n)` returns may be committed -/
+/-- whatever `ask(n)` returns are seeds without a value (and not pending) — used by B.4
+(`ask_marks_pending`): `tell_pending` marks exactly such seeds -/
 theorem askPoints_valid {s : State α} {n : Nat} {choice pts : List Nat}
-    (h : askPoints s n choice = some pts) : ValidOp s (.askCommit pts) := by
+    (h : askPoints s n choice = some pts) :
+    ∀ p ∈ pts, hasKey p s.data = false ∧ p ∉ s.pending := by
   have hk : ∀ p ∈ pts, known s p = false := by
     unfold askPoints at h
     dsimp only at h
@@ -275,7 +322,7 @@ theorem askPoints_valid {s : State α} {n : Nat} {choice pts : List Nat}
   have := hk p hp
   unfold known at this
   rw [Bool.or_eq_false_iff] at this
-  exact this.1
+  exact ⟨this.1, by simpa using this.2⟩
 
 /-- no pending seed has a value; `pending` is duplicate-free -/
 structure PInv (s : State α) : Prop where
@@ -284,12 +331,6 @@ structure PInv (s : State α) : Prop where
 
 theorem pinv_init (atol rtol : Option α) (m : Nat) : PInv (init atol rtol m) :=
   ⟨fun _ hk => absurd hk List.not_mem_nil, List.nodup_nil⟩
-
-theorem hasKey_append_singleton (d : List (Nat × α)) (k j : Nat) (v : α) :
-    hasKey j (d ++ [(k, v)]) = (hasKey j d || k == j) := by
-  unfold hasKey
-  rw [List.any_append]
-  simp
 
 theorem pinv_tell {s : State α} (h : PInv s) (k : Nat) (v : α) : PInv (tell s k v) := by
   unfold tell
@@ -302,55 +343,47 @@ theorem pinv_tell {s : State α} (h : PInv s) (k : Nat) (v : α) : PInv (tell s 
     rw [hasKey_append_singleton, h.pend_nodata j hj'.2]
     simpa using hj'.1.symm
 
-theorem pinv_tellPending {s : State α} (h : PInv s) {k : Nat} (hk : hasKey k s.data = false) :
-    PInv (tellPending s k) := by
+/-- `tell_pending` keeps the invariant for EVERY seed: a seed that has a value is ignored -/
+theorem pinv_tellPending {s : State α} (h : PInv s) (k : Nat) : PInv (tellPending s k) := by
   refine ⟨?_, tellPending_nodup h.pend_nodup k⟩
   intro j hj
   rw [tellPending_data]
-  rcases (mem_tellPending_pending s k j).1 hj with rfl | hj
+  rcases (mem_tellPending_pending s k j).1 hj with ⟨rfl, hk⟩ | hj
   · exact hk
   · exact h.pend_nodata j hj
 
-theorem pinv_foldl_tellPending (pts : List Nat) {s : State α} (h : PInv s)
-    (hk : ∀ p ∈ pts, hasKey p s.data = false) : PInv (pts.foldl tellPending s) := by
+theorem pinv_foldl_tellPending (pts : List Nat) {s : State α} (h : PInv s) :
+    PInv (pts.foldl tellPending s) := by
   induction pts generalizing s with
   | nil => exact h
   | cons p ps ih =>
     rw [List.foldl_cons]
-    apply ih (pinv_tellPending h (hk p List.mem_cons_self))
-    intro q hq
-    rw [tellPending_data]
-    exact hk q (List.mem_cons_of_mem _ hq)
+    exact ih (pinv_tellPending h p)
 
-theorem pinv_step {s : State α} (h : PInv s) {op : Op α} (hv : ValidOp s op) :
-    PInv (step s op) := by
+theorem pinv_step {s : State α} (h : PInv s) (op : Op α) : PInv (step s op) := by
   cases op with
   | tell k v => exact pinv_tell h k v
-  | tellPending k => exact pinv_tellPending h hv
+  | tellPending k => exact pinv_tellPending h k
   | removeUnfinished => exact ⟨fun _ hk => absurd hk List.not_mem_nil, List.nodup_nil⟩
-  | askCommit pts => exact pinv_foldl_tellPending pts h hv
+  | askCommit pts => exact pinv_foldl_tellPending pts h
 
-theorem pinv_run : ∀ (ops : List (Op α)) (s : State α), PInv s → ValidOps s ops → PInv (run s ops)
-  | [], _, h, _ => h
-  | op :: ops, s, h, hv => pinv_run ops (step s op) (pinv_step h hv.1) hv.2
+theorem pinv_run : ∀ (ops : List (Op α)) (s : State α), PInv s → PInv (run s ops)
+  | [], _, h => h
+  | op :: ops, s, h => pinv_run ops (step s op) (pinv_step h op)
 
-/-- in every state reachable by a valid history no pending seed has a value -/
-theorem told_not_pending_run (atol rtol : Option α) (m : Nat) (ops : List (Op α))
-    (hv : ValidOps (init atol rtol m) ops) :
-    let s := run (init atol rtol m) ops
+/-- no seed is both in `data` and in `pending`, read both ways -/
+theorem told_not_pending {s : State α} (h : PInv s) :
     (∀ k ∈ s.pending, hasKey k s.data = false) ∧ (∀ k, hasKey k s.data = true → k ∉ s.pending) := by
-  intro s
-  have h := pinv_run ops _ (pinv_init atol rtol m) hv
   refine ⟨h.pend_nodata, ?_⟩
   intro k hk hp
   rw [h.pend_nodata k hp] at hk
   exact Bool.false_ne_true hk
 
-theorem hasKey_tell_self (s : State α) (k : Nat) (v : α) : hasKey k (tell s k v).data = true := by
-  rw [tell_data]
-  split
-  · assumption
-  · rw [hasKey_append_singleton]; simp
+/-- in every state reachable from `init` — by ANY op list — no pending seed has a value -/
+theorem told_not_pending_run (atol rtol : Option α) (m : Nat) (ops : List (Op α)) :
+    let s := run (init atol rtol m) ops
+    (∀ k ∈ s.pending, hasKey k s.data = false) ∧ (∀ k, hasKey k s.data = true → k ∉ s.pending) :=
+  told_not_pending (pinv_run ops _ (pinv_init atol rtol m))
 
 /-- right after `tell k v` the seed `k` has a value and is not pending -/
 theorem tell_not_pending {s : State α} (h : PInv s) (k : Nat) (v : α) :
@@ -361,12 +394,29 @@ theorem tell_not_pending {s : State α} (h : PInv s) (k : Nat) (v : α) :
   rw [hasKey_tell_self] at this
   exact Bool.false_ne_true this.symm
 
+/-- … and in a state reachable from `init` the seed has a value and is not pending afterwards -/
+theorem tell_tellPending_tell_run (atol rtol : Option α) (m : Nat) (ops : List (Op α))
+    (k : Nat) (v w : α) :
+    let s := run (init atol rtol m) ops
+    let t := tell (tellPending (tell s k v) k) k w
+    t = tell s k v ∧ hasKey k t.data = true ∧ k ∉ t.pending := by
+  intro s t
+  have ht : t = tell s k v := tell_tellPending_tell s k v w
+  rw [ht]
+  exact ⟨rfl, tell_not_pending (pinv_run ops _ (pinv_init atol rtol m)) k v⟩
+
 /-! ## B.4 a committing `ask` marks its points pending, and they stay pending -/
 
-/-- every point of a committing `ask` is pending afterwards (no hypothesis needed) -/
+/-- every point of a committing `ask` that has no value is pending afterwards (`tell_pending` ignores
+a seed that has a value; the points `ask` returns never have one: `ask_marks_pending`) -/
 theorem askCommit_marks_pending (s : State α) (pts : List Nat) :
-    ∀ p ∈ pts, p ∈ (step s (.askCommit pts)).pending :=
-  fun p hp => (mem_foldl_tellPending_pending pts s p).2 (Or.inl hp)
+    ∀ p ∈ pts, hasKey p s.data = false → p ∈ (step s (.askCommit pts)).pending :=
+  fun p hp hd => (mem_foldl_tellPending_pending pts s p).2 (Or.inl ⟨hp, hd⟩)
+
+/-- every point that `ask(n)` returns is pending after the commit (no hypothesis on the state) -/
+theorem ask_marks_pending {s : State α} {n : Nat} {choice pts : List Nat}
+    (h : askPoints s n choice = some pts) : ∀ p ∈ pts, p ∈ (step s (.askCommit pts)).pending :=
+  fun p hp => askCommit_marks_pending s pts p hp (askPoints_valid h p hp).1
 
 /-- the operation neither tells `k` nor is `remove_unfinished` -/
 def KeepsPending (k : Nat) : Op α → Prop
@@ -395,14 +445,22 @@ theorem pending_stays_run {s : State α} {k : Nat} (hk : k ∈ s.pending) (ops :
     exact ih (pending_stays_step hk (hops op List.mem_cons_self))
       (fun o ho => hops o (List.mem_cons_of_mem _ ho))
 
-/-- **C10 / B.4**  every point of a committing `ask` is pending afterwards and stays pending along any
-continuation that neither tells it nor calls `remove_unfinished` -/
+/-- **C10 / B.4**  every point of a committing `ask` (that has no value) is pending afterwards and stays
+pending along any continuation that neither tells it nor calls `remove_unfinished` -/
 theorem askCommit_pending_until_told (s : State α) (pts : List Nat) :
+    ∀ p ∈ pts, hasKey p s.data = false → p ∈ (step s (.askCommit pts)).pending ∧
+      ∀ ops : List (Op α), (∀ op ∈ ops, KeepsPending p op) →
+        p ∈ (run (step s (.askCommit pts)) ops).pending :=
+  fun p hp hd => ⟨askCommit_marks_pending s pts p hp hd,
+    fun ops hops => pending_stays_run (askCommit_marks_pending s pts p hp hd) ops hops⟩
+
+/-- **C10 / B.4**  the same for whatever `ask(n)` returned, in any state -/
+theorem ask_pending_until_told {s : State α} {n : Nat} {choice pts : List Nat}
+    (h : askPoints s n choice = some pts) :
     ∀ p ∈ pts, p ∈ (step s (.askCommit pts)).pending ∧
       ∀ ops : List (Op α), (∀ op ∈ ops, KeepsPending p op) →
         p ∈ (run (step s (.askCommit pts)) ops).pending :=
-  fun p hp => ⟨askCommit_marks_pending s pts p hp,
-    fun ops hops => pending_stays_run (askCommit_marks_pending s pts p hp) ops hops⟩
+  fun p hp => askCommit_pending_until_told s pts p hp (askPoints_valid h p hp).1
 
 /-! ## B.5 `remove_unfinished` -/
 
@@ -471,7 +529,10 @@ theorem setData_getData_loss (sqrt : α → α) (fresh s : State α)
 def params (s : State α) : Nat × Option α × Option α := (s.minNpoints, s.atol, s.rtol)
 
 theorem params_tellPending (t : State α) (k : Nat) : params (tellPending t k) = params t := by
-  unfold tellPending; split <;> rfl
+  unfold tellPending
+  split
+  · rfl
+  · split <;> rfl
 
 theorem params_foldl_tellPending (pts : List Nat) (t : State α) :
     params (pts.foldl tellPending t) = params t := by
